@@ -61,6 +61,33 @@ class ValidatePathsExist:
     def inv0(path_objs, rest, stderr, old):
         return some_missing(path_objs) == some_missing(rest) and stderr == old.stderr and path_objs == old.path_objs
 
+    # inputs from the property's own quantifier ("every class of usage error": the ways a path argument can be missing),
+    # run natively on the real function whenever the solver refutes / cannot decide an obligation of this unit
+    def witness_plainly_missing_path():
+        return {"path_objs": [_scratch_dir() / "no-such-file.py"]}
+
+    def witness_missing_after_existing_ones():
+        d = _scratch_dir()
+        (d / "present.py").write_text("x = 1\n")
+        return {"path_objs": [d / "present.py", d, d / "absent" / "deep.py"]}
+
+    def witness_symlink_to_a_missing_target():
+        d = _scratch_dir()
+        (d / "dangling.py").symlink_to(d / "target-that-does-not-exist.py")
+        return {"path_objs": [d / "dangling.py"]}
+
+    def witness_directory_symlink_to_a_missing_target():
+        d = _scratch_dir()
+        (d / "present.py").write_text("x = 1\n")
+        (d / "linkdir").symlink_to(d / "no-such-dir", target_is_directory=True)
+        return {"path_objs": [d / "present.py", d / "linkdir"]}
+
+
+def _scratch_dir():
+    import pathlib
+    import tempfile
+    return pathlib.Path(tempfile.mkdtemp(prefix="c06paths_"))
+
 
 def config_doc_ok(config_file):
     """The configuration file, if it exists, parses to a mapping or is empty (precondition of LinterConfigLoader.load,
@@ -68,12 +95,12 @@ def config_doc_ok(config_file):
     return isinstance(yaml_doc(file_of(path_of_str(config_file))), dict) or yaml_doc(file_of(path_of_str(config_file))) is None
 
 
-@contract(U + "load_config_file", no_selftest=True, props=["C06", "C05"],
+@contract(U + "load_config_file", no_selftest=True, props=["C06", "C05"], callee_view="c06",
           types=dict(orchestrator=OrchInitT, config_file=Str, verbose=Bool, config_path=PathT),
-          raises=["SystemExit", "ConfigParseError", "OSError"], modifies=["orchestrator.config", "stderr"], exc=Int)
+          raises=["SystemExit", "Exception"], modifies=["orchestrator.config", "stderr"], exc=Int)
 class LoadConfigFile:
-    def requires(config_file):
-        return config_doc_ok(config_file)
+    """No assumption on the file's contents (the loader is applied through its raise-set view LinterConfigLoader.load~c06):
+    whatever the loader raises propagates as an Exception, which every command wrapper turns into exit code 2."""
 
     def on_raise_missing_file_is_exit_2(config_file, exc, exc_class):
         return implies(exc_class == "SystemExit", exc == 2 and not fs_exists(path_of_str(config_file)))
@@ -112,9 +139,6 @@ class GetOrDetectProjectRoot:
                      orchestrator=OrchInitT),
           returns=OrchInitT, raises=["SystemExit", "Exception"], modifies=["stderr"], exc=Int)
 class SetupBaseOrchestrator:
-    def requires(path_objs, config_file, project_root):
-        return run_config_ok(path_objs, config_file, project_root)
-
     def on_raise_missing_config_is_exit_2(config_file, exc, exc_class):
         return implies(exc_class == "SystemExit",
                        exc == 2 and (False if config_file is None else not fs_exists(path_of_str(config_file))))
@@ -223,9 +247,6 @@ def exits_like_the_rendered_list(L, fmt, exc, exc_class, stdout, old):
           raises=["SystemExit", "Exception"], modifies=["stdout", "stderr"], exc=Int,
           inline=["_setup_magic_numbers_orchestrator", "_run_magic_numbers_lint"])
 class ExecuteMagicNumbersLint:
-    def requires(params):
-        return run_config_ok(params.path_objs, params.config_file, params.project_root)
-
     def raises_when(params):
         return True  # NoReturn
 
@@ -240,9 +261,6 @@ class ExecuteMagicNumbersLint:
           raises=["SystemExit", "Exception"], modifies=["stdout", "stderr"], exc=Int,
           inline=["_setup_and_validate", "_setup_performance_orchestrator", "_run_all_perf_lint", "_filter_by_rule"])
 class ExecutePerfLint:
-    def requires(params):
-        return run_config_ok(params.path_objs, params.config_file, params.project_root)
-
     def raises_when(params):
         return True
 
@@ -297,9 +315,6 @@ class ParseJsonRules:
           returns=OrchInitT, raises=["SystemExit", "Exception"], modifies=["stderr"], exc=Int,
           inline=["_apply_orchestrator_config", "_apply_inline_rules"])
 class SetupFilePlacementOrchestrator:
-    def requires(path_objs, config_file, project_root):
-        return run_config_ok(path_objs, config_file, project_root)
-
     def on_raise_usage_errors_are_exit_2(config_file, rules, exc, exc_class):
         # invalid --rules JSON, or (no --rules) a --config file that does not exist
         return implies(exc_class == "SystemExit",
@@ -313,9 +328,6 @@ class SetupFilePlacementOrchestrator:
                      violations=Violations),
           raises=["SystemExit", "Exception"], modifies=["stdout", "stderr"], exc=Int)
 class ExecuteFilePlacementLint:
-    def requires(path_objs, config_file, project_root):
-        return run_config_ok(path_objs, config_file, project_root)
-
     def raises_when(path_objs):
         return True
 
@@ -344,9 +356,6 @@ class ApplyPipelineConfigOverride:
           raises=["SystemExit", "Exception"], modifies=["stdout", "stderr"], exc=Int,
           inline=["_setup_pipeline_orchestrator", "_run_pipeline_lint"])
 class ExecutePipelineLint:
-    def requires(path_objs, config_file, project_root):
-        return run_config_ok(path_objs, config_file, project_root)
-
     def raises_when(path_objs):
         return True
 
@@ -366,9 +375,6 @@ RS = "src/cli/linters/rust.py::"
           raises=["SystemExit", "Exception"], modifies=["stdout", "stderr"], exc=Int,
           inline=["_setup_improper_logging_orchestrator", "_run_improper_logging_lint"])
 class ExecuteImproperLoggingLint:
-    def requires(params):
-        return run_config_ok(params.path_objs, params.config_file, params.project_root)
-
     def raises_when(params):
         return True
 
@@ -381,9 +387,6 @@ class ExecuteImproperLoggingLint:
           raises=["SystemExit", "Exception"], modifies=["stdout", "stderr"], exc=Int,
           inline=["_setup_method_property_orchestrator", "_run_method_property_lint"])
 class ExecuteMethodPropertyLint:
-    def requires(params):
-        return run_config_ok(params.path_objs, params.config_file, params.project_root)
-
     def raises_when(params):
         return True
 
@@ -396,9 +399,6 @@ class ExecuteMethodPropertyLint:
           raises=["SystemExit", "Exception"], modifies=["stdout", "stderr"], exc=Int,
           inline=["_setup_stateless_class_orchestrator", "_run_stateless_class_lint"])
 class ExecuteStatelessClassLint:
-    def requires(params):
-        return run_config_ok(params.path_objs, params.config_file, params.project_root)
-
     def raises_when(params):
         return True
 
@@ -411,9 +411,6 @@ class ExecuteStatelessClassLint:
           raises=["SystemExit", "Exception"], modifies=["stdout", "stderr"], exc=Int,
           inline=["_setup_lazy_ignores_orchestrator", "_run_lazy_ignores_lint"])
 class ExecuteLazyIgnoresLint:
-    def requires(params):
-        return run_config_ok(params.path_objs, params.config_file, params.project_root)
-
     def raises_when(params):
         return True
 
@@ -426,9 +423,6 @@ class ExecuteLazyIgnoresLint:
           raises=["SystemExit", "Exception"], modifies=["stdout", "stderr"], exc=Int,
           inline=["_setup_lbyl_orchestrator", "_run_lbyl_lint"])
 class ExecuteLbylLint:
-    def requires(params):
-        return run_config_ok(params.path_objs, params.config_file, params.project_root)
-
     def raises_when(params):
         return True
 
@@ -441,9 +435,6 @@ class ExecuteLbylLint:
           raises=["SystemExit", "Exception"], modifies=["stdout", "stderr"], exc=Int,
           inline=["_setup_stringly_typed_orchestrator", "_run_stringly_typed_lint"])
 class ExecuteStringlyTypedLint:
-    def requires(params):
-        return run_config_ok(params.path_objs, params.config_file, params.project_root)
-
     def raises_when(params):
         return True
 
@@ -456,9 +447,6 @@ class ExecuteStringlyTypedLint:
           raises=["SystemExit", "Exception"], modifies=["stdout", "stderr"], exc=Int,
           inline=["_setup_file_header_orchestrator", "_run_file_header_lint"])
 class ExecuteFileHeaderLint:
-    def requires(params):
-        return run_config_ok(params.path_objs, params.config_file, params.project_root)
-
     def raises_when(params):
         return True
 
@@ -471,9 +459,6 @@ class ExecuteFileHeaderLint:
           raises=["SystemExit", "Exception"], modifies=["stdout", "stderr"], exc=Int,
           inline=["_setup_unwrap_abuse_orchestrator", "_run_unwrap_abuse_lint"])
 class ExecuteUnwrapAbuseLint:
-    def requires(params):
-        return run_config_ok(params.path_objs, params.config_file, params.project_root)
-
     def raises_when(params):
         return True
 
@@ -486,9 +471,6 @@ class ExecuteUnwrapAbuseLint:
           raises=["SystemExit", "Exception"], modifies=["stdout", "stderr"], exc=Int,
           inline=["_setup_clone_abuse_orchestrator", "_run_clone_abuse_lint"])
 class ExecuteCloneAbuseLint:
-    def requires(params):
-        return run_config_ok(params.path_objs, params.config_file, params.project_root)
-
     def raises_when(params):
         return True
 
@@ -501,9 +483,6 @@ class ExecuteCloneAbuseLint:
           raises=["SystemExit", "Exception"], modifies=["stdout", "stderr"], exc=Int,
           inline=["_setup_blocking_async_orchestrator", "_run_blocking_async_lint"])
 class ExecuteBlockingAsyncLint:
-    def requires(params):
-        return run_config_ok(params.path_objs, params.config_file, params.project_root)
-
     def raises_when(params):
         return True
 
@@ -516,9 +495,6 @@ class ExecuteBlockingAsyncLint:
           raises=["SystemExit", "Exception"], modifies=["stdout", "stderr"], exc=Int,
           inline=["_setup_and_validate", "_setup_performance_orchestrator", "_run_string_concat_lint"])
 class ExecuteStringConcatLint:
-    def requires(params):
-        return run_config_ok(params.path_objs, params.config_file, params.project_root)
-
     def raises_when(params):
         return True
 
@@ -531,9 +507,6 @@ class ExecuteStringConcatLint:
           raises=["SystemExit", "Exception"], modifies=["stdout", "stderr"], exc=Int,
           inline=["_setup_and_validate", "_setup_performance_orchestrator", "_run_regex_in_loop_lint"])
 class ExecuteRegexInLoopLint:
-    def requires(params):
-        return run_config_ok(params.path_objs, params.config_file, params.project_root)
-
     def raises_when(params):
         return True
 
@@ -560,9 +533,6 @@ def option_in_force(config, section, key, value):
           inline=["_setup_nesting_orchestrator", "_run_nesting_lint", "_apply_nesting_config_override",
                   "_apply_nesting_to_languages"])
 class ExecuteNestingLint:
-    def requires(path_objs, config_file, project_root):
-        return run_config_ok(path_objs, config_file, project_root)
-
     def raises_when(path_objs):
         return True
 
@@ -581,9 +551,6 @@ class ExecuteNestingLint:
           raises=["SystemExit", "Exception"], modifies=["stdout", "stderr"], exc=Int, dynamic_type_errors="raise",
           inline=["_setup_srp_orchestrator", "_run_srp_lint", "_apply_srp_config_override"])
 class ExecuteSrpLint:
-    def requires(path_objs, config_file, project_root):
-        return run_config_ok(path_objs, config_file, project_root)
-
     def raises_when(path_objs):
         return True
 
@@ -623,9 +590,6 @@ class LoadDryConfigFile:
           raises=["SystemExit", "Exception"], modifies=["stdout", "stderr"], exc=Int, dynamic_type_errors="raise",
           inline=["_setup_dry_orchestrator", "_run_dry_lint", "_apply_dry_config_override"])
 class ExecuteDryLint:
-    def requires(path_objs, config_file, project_root):
-        return project_config_loadable(run_root(path_objs, project_root))  # (--config is read for its dry section only)
-
     def raises_when(path_objs):
         return True
 
@@ -833,3 +797,40 @@ class ResolveExplicitProjectRoot:
 
     def value(explicit_root):
         return path_resolved(path_of_str(explicit_root))
+
+
+# ---- os.path predicates: the same file-system snapshot as the pathlib model of contracts/c09_paths.py --------------------
+fs_lexists = uf("fs_lexists", [PathT], Bool, concrete=lambda p: __import__("os").path.lexists(p))
+
+
+def _as_path_term(ex, a):
+    from pyvc.ty import VOpaque, VStr
+    if isinstance(a, VOpaque) and a.ty is PathT:
+        return a.t
+    if isinstance(a, VStr):
+        return z3.Function("uf.path_of_str", z3.StringSort(), PathT.sort())(a.t)
+    raise NotImplementedError
+
+
+def _os_path_pred(name, ufname):
+    def h(ex, args, kwargs, lineno):
+        from pyvc.ty import VBool, Unsupported
+        try:
+            p = _as_path_term(ex, args[0])
+        except NotImplementedError:
+            raise Unsupported(f"{name} of {args[0]}")
+        B = z3.BoolSort()
+        f = z3.Function(ufname, PathT.sort(), B)
+        ex.ufs_used.add(f"{name} == {ufname[3:]} (one file-system snapshot; exists/isfile/isdir follow symlinks, lexists does not)")
+        exists, lexists = z3.Function("uf.fs_exists", PathT.sort(), B), z3.Function("uf.fs_lexists", PathT.sort(), B)
+        isfile, isdir = z3.Function("uf.fs_is_file", PathT.sort(), B), z3.Function("uf.fs_is_dir", PathT.sort(), B)
+        # a path that exists (target reachable) certainly lexists; a dangling symlink lexists without existing
+        ex.assume(z3.Implies(exists(p), lexists(p)))
+        ex.assume(z3.Implies(z3.Or(isfile(p), isdir(p)), exists(p)))
+        return VBool(f(p))
+    return h
+
+
+for _n, _u in (("os.path.exists", "uf.fs_exists"), ("os.path.lexists", "uf.fs_lexists"), ("os.path.isfile", "uf.fs_is_file"),
+               ("os.path.isdir", "uf.fs_is_dir")):
+    EXTERNALS.setdefault(_n, _os_path_pred(_n, _u))
